@@ -283,8 +283,12 @@ func (p *Posix) ListBuckets(_ context.Context, input s3response.ListBucketsInput
 			continue
 		}
 
-		if len(buckets) == int(input.MaxBuckets) {
+		if len(buckets) > 0 && len(buckets) == int(input.MaxBuckets) {
 			cToken = buckets[len(buckets)-1].Name
+			break
+		}
+		if input.MaxBuckets == 0 {
+			// an empty page was asked for
 			break
 		}
 
